@@ -217,7 +217,13 @@ impl<'a> Poly<'a> {
         assert!(a.len() <= chunks * chunklen);
         let mut vals = vec![];
         for chk in a.chunks(chunklen) {
-            let tree = Self::_product_tree(self.r, chk, true);
+            // _multi_eval needs a tree with at least deg(P) leaves:
+            // pad a short (last) chunk with extra points.
+            let mut pts = chk.to_vec();
+            if pts.len() + 1 < plen {
+                pts.resize(plen - 1, MInt::default());
+            }
+            let tree = Self::_product_tree(self.r, &pts, true);
             let mut vs = self._multi_eval(&tree);
             vs.truncate(chk.len());
             vals.append(&mut vs);
